@@ -32,6 +32,7 @@ import DafRel.Lemmas.BacktrackJoin
 import DafRel.Bridge.Kernel
 import DafRel.Bridge.Ops
 import DafRel.Bridge.RelOps
+import DafRel.Bridge.JoinOps
 
 namespace DafRel.Props.C20
 
